@@ -330,6 +330,24 @@ def run(db: DB, rep: Report) -> None:
     rep.rule("R5d", "analysis passes that mutate shared tensors end with the reset/set_is_output loop", 2)
     _check_passes(db, rep, T, tr)
 
+    # ---- R5f: each intermediate is left unpartitioned under its declared name -------
+    # (the footer rules W4-W7 of C07 decide the same clause; they are applied here to the
+    # same sources so that a cascade-only breakage is reported under C05 as well)
+    rep.rule("R5f", "every Einsum's footer returns its output to the declared, unpartitioned layout", 6)
+    from sa.rules import c07
+    from sa.rules.c09 import analyse
+    sub = Report("C07", rep.tier, rep.seed)
+    c07._restore_rules(db, sub, analyse(db)[1])
+    for rid, r in sub.rules.items():
+        for inst in r["instances"]:
+            rep.instance("R5f", inst["where"], "%s: %s" % (rid, inst["what"]), inst["ok"])
+    for v in sub.violations:
+        rep.violation("R5f", v.where, v.func, "%s:%s" % (v.rule, v.construct),
+                      "%s; a later Einsum of the cascade reads the intermediate under its declared name" %
+                      v.message)
+    for u in sub.undecided_list:
+        rep.undecided("R5f", u["where"], u["function"], u["message"])
+
     # ---- R5e -------------------------------------------------------------------
     rep.rule("R5e", "shared objects carry only reviewed per-Einsum state; stateful classes are built per Einsum", 6)
     stateful: Dict[str, str] = {}
@@ -679,6 +697,8 @@ def mutants(db: DB):
     from sa.selftest import M, Mutant, Edit
     ten, prog, hf = "teaal/ir/tensor.py", "teaal/ir/program.py", "teaal/trans/hifiber.py"
     return [
+        M("temporary ranks recognised by the last letter of the rank", "teaal/trans/partitioner.py",
+          "                    if suffix and suffix[-1] == \"I\":", "                    if info[0][-1] == \"I\":", "R5f"),
         M("reset forgets is_flat", ten, "        self.is_output = False\n        self.is_flat = False\n\n    def root_name",
           "        self.is_output = False\n\n    def root_name", "R5a"),
         M("reset forgets rank_ptr", ten, "        self.iter_ptr = 0\n        self.rank_ptr = 0\n        self.ranks = self.init_ranks.copy()",
